@@ -5,6 +5,8 @@ voxel.py
 Convert meshes to a simple voxel data structure and back again.
 """
 
+from copy import deepcopy
+
 import numpy as np
 
 from .. import bounds as bounds_module
@@ -360,7 +362,11 @@ class VoxelGrid(Geometry):
         return self.as_boxes(kwargs.pop("colors", None)).show(*args, **kwargs)
 
     def copy(self):
-        return VoxelGrid(self.encoding.copy(), self._transform.matrix.copy())
+        return VoxelGrid(
+            self.encoding.copy(),
+            self._transform.matrix.copy(),
+            metadata=deepcopy(self.metadata),
+        )
 
     def export(self, file_obj=None, file_type=None, **kwargs):
         """
